@@ -57,6 +57,18 @@ func Equal(want, got interface{}, nameMap map[string]string) error {
 	return c.dyn("", reflect.ValueOf(want), reflect.ValueOf(got))
 }
 
+// Session compares several (original, result) pairs with one pointer bijection,
+// so aliasing across the values of one stream is checked too.
+type Session struct{ c *cmp }
+
+func NewSession(nameMap map[string]string) *Session {
+	return &Session{&cmp{nameMap: nameMap, w2g: map[unsafe.Pointer]unsafe.Pointer{}, g2w: map[unsafe.Pointer]unsafe.Pointer{}, aliasing: true}}
+}
+
+func (s *Session) Equal(want, got interface{}) error {
+	return s.c.dyn("", reflect.ValueOf(want), reflect.ValueOf(got))
+}
+
 // EqualValues compares two decoder results (same static expectations on both
 // sides): used by differential checks (C03, C11, C12).
 func EqualValues(a, b interface{}) error {
@@ -227,7 +239,19 @@ func (c *cmp) dyn(path string, wv, gv reflect.Value) error {
 			}
 			return fail(path, "want empty list, got %s", short(gv))
 		}
-		if _, typed := zoo.ListType(wv.Type(), c.nameMap); typed {
+		if wire, typed := zoo.ListType(wv.Type(), c.nameMap); typed {
+			if gv.IsValid() && gv.Type() != wv.Type() && gv.Kind() == reflect.Slice && gv.Len() == wv.Len() {
+				// several Go slice types can share one list type name ([]T / []*T, []int16 / []int32);
+				// at an untyped position the result then has whichever of them the type map holds
+				if other, ok := c.nameMap[zoo.TypeName(gv.Type())]; ok && other == wire {
+					for i := 0; i < wv.Len(); i++ {
+						if err := c.dynElem(fmt.Sprintf("%s[%d]", path, i), wv.Index(i), gv.Index(i)); err != nil {
+							return err
+						}
+					}
+					return nil
+				}
+			}
 			if !gv.IsValid() || gv.Type() != wv.Type() {
 				return fail(path, "want typed list %v, got %s", wv.Type(), short(gv))
 			}
@@ -288,6 +312,50 @@ func (c *cmp) dyn(path string, wv, gv reflect.Value) error {
 		return fail(path, "comparator: unsupported kind %v", wv.Kind())
 	}
 	return nil
+}
+
+// dynElem compares an element of a list that came back through another Go slice
+// type of the same wire name: numbers by value, structs through either pointer level.
+func (c *cmp) dynElem(path string, wv, gv reflect.Value) error {
+	switch {
+	case IntKindOf(wv) && IntKindOf(gv):
+		if asInt(wv) != asInt(gv) {
+			return fail(path, "want %d, got %d", asInt(wv), asInt(gv))
+		}
+		return nil
+	case (wv.Kind() == reflect.Float32 || wv.Kind() == reflect.Float64) && (gv.Kind() == reflect.Float32 || gv.Kind() == reflect.Float64):
+		if !eqFloat(wv.Float(), gv.Float()) {
+			return fail(path, "want %v, got %v", wv.Float(), gv.Float())
+		}
+		return nil
+	case wv.Kind() == reflect.Struct && gv.Kind() == reflect.Struct && wv.Type() == gv.Type():
+		return c.static(path, wv, gv, false)
+	case wv.Kind() == reflect.Ptr && gv.Kind() == reflect.Struct && wv.Type().Elem() == gv.Type():
+		if wv.IsNil() {
+			if !gv.IsZero() {
+				return fail(path, "want nil pointer, got non-zero struct")
+			}
+			return nil
+		}
+		return c.static(path, wv.Elem(), gv, false)
+	}
+	return c.dyn(path, wv, gv)
+}
+
+func IntKindOf(v reflect.Value) bool {
+	switch v.Kind() {
+	case reflect.Int, reflect.Int8, reflect.Int16, reflect.Int32, reflect.Int64, reflect.Uint, reflect.Uint8, reflect.Uint16, reflect.Uint32, reflect.Uint64:
+		return true
+	}
+	return false
+}
+
+func asInt(v reflect.Value) int64 {
+	switch v.Kind() {
+	case reflect.Int, reflect.Int8, reflect.Int16, reflect.Int32, reflect.Int64:
+		return v.Int()
+	}
+	return int64(v.Uint())
 }
 
 func ifaceOf(v reflect.Value) interface{} {
